@@ -2,6 +2,7 @@ package spine
 
 import (
 	"fmt"
+	"maps"
 	"sync"
 
 	"github.com/enbility/spine-go/api"
@@ -18,6 +19,9 @@ type Feature struct {
 
 	// guards description
 	muxDescription sync.RWMutex
+
+	// guards operations
+	muxOperations sync.RWMutex
 }
 
 var _ api.FeatureInterface = (*Feature)(nil)
@@ -44,8 +48,13 @@ func (r *Feature) Role() model.RoleType {
 	return r.role
 }
 
+// Operations returns a copy of the operations per function,
+// the feature may add or replace them at any time
 func (r *Feature) Operations() map[model.FunctionType]api.OperationsInterface {
-	return r.operations
+	r.muxOperations.RLock()
+	defer r.muxOperations.RUnlock()
+
+	return maps.Clone(r.operations)
 }
 
 func (r *Feature) Description() *model.DescriptionType {
